@@ -130,6 +130,10 @@ def tmpl(name, args):
         return ("bi", "abs", X, ())
     if name == "round1":
         return ("bi", "round", ("bin", "truediv", X, ("lit", 4)), (("lit", 1),))
+    if name == "dec":
+        return ("bin", "sub", X, ("lit", 1))
+    if name == "dyndiff":   # an index that is only in range while two locations are CONSISTENT with each other: l[X - Y]
+        return ("dyn", args[0], ("bin", "sub", ("loc", args[1]), ("loc", args[2])))
     if name == "constcall":   # a definition that reads NO location of the data container: a call with numeric arguments only
         return ("call", "pick", (("lit", 3),), (("k", ("lit", 2)),))
     if name == "dyn":
@@ -169,7 +173,7 @@ def tmpl(name, args):
     raise ValueError(name)
 
 
-UNARY = ("mul2", "inc", "neg", "dbl", "pick", "abs", "round1", "lt", "eqx", "floor", "rpow", "abs2", "pair1", "cplx", "kw2", "unit", "flaky", "litneg", "bigdiv")
+UNARY = ("dec", "mul2", "inc", "neg", "dbl", "pick", "abs", "round1", "lt", "eqx", "floor", "rpow", "abs2", "pair1", "cplx", "kw2", "unit", "flaky", "litneg", "bigdiv")
 BINARY_SYM = ("add", "mul")
 BINARY_ASYM = ("sub", "addr", "mulr", "roundr")
 
@@ -205,6 +209,12 @@ def build_universe(world, cfg):
                         ops.append(("def", L, tmpl(name, (X, Y))))
             elif name == "constcall":
                 ops.append(("def", L, tmpl(name, ())))
+            elif name == "dyndiff":
+                for C in world["containers"]:
+                    if isinstance(world["containers"][C], list) and not T.overlap(C, L):
+                        for X, Y in itertools.permutations(sources, 2):
+                            if X != L and Y != L:
+                                ops.append(("def", L, tmpl(name, (C, X, Y))))
             elif name in ("total", "size"):
                 for C in world["containers"]:
                     if not T.overlap(C, L):
